@@ -52,12 +52,15 @@ pub struct PolEvent {
     pub delivered: usize,
     /// index of the operation during which it was made
     pub op: usize,
+    /// global sequence number over all policies of one run
+    pub seq: usize,
 }
 
 #[derive(Default)]
 pub struct Shared {
     pub delivered: Cell<usize>,
     pub op: Cell<usize>,
+    pub seq: Cell<usize>,
 }
 
 pub type PolLog = Rc<RefCell<Vec<PolEvent>>>;
@@ -78,7 +81,10 @@ impl RecPolicy {
 impl BufPolicy for RecPolicy {
     fn grow_to(&mut self, current_size: usize) -> Option<usize> {
         let answer = self.kind.answer(current_size);
+        let seq = self.shared.seq.get();
+        self.shared.seq.set(seq + 1);
         self.log.borrow_mut().push(PolEvent {
+            seq,
             current: current_size,
             answer,
             delivered: self.shared.delivered.get(),
